@@ -8,6 +8,18 @@ EXTENDS Router
 
 CONSTANTS MaxP, MaxC, WithMount
 
+\* OVERLAP = TRUE (cfg override): the parent may register routes of its own below the mount prefix (C01 quantifies over every
+\* nesting; C04's side condition does not hold then, so only Dispatch is checked).  Excluded are the configurations the
+\* framework refuses at start-up in one of the two orders (`Conflicting route definition`): walking down from the mount
+\* point through params of both sides, the parent's route and a child's route continue with the same static segment.
+OVERLAP == FALSE
+NoPMerge == FALSE
+TrueConst == TRUE
+RECURSIVE StaticClash(_, _)
+StaticClash(x, y) == IF x = <<>> \/ y = <<>> THEN FALSE
+                     ELSE IF x[1].k = "P" /\ y[1].k = "P" THEN StaticClash(Tail(x), Tail(y))
+                     ELSE x[1].k = "S" /\ y[1] = x[1]
+
 Chars   == {"a", "b"}
 SegStr  == {<<"a">>, <<"b">>, <<"a", "b">>}
 Segs    == {SSeg(w) : w \in SegStr} \cup {PSeg}
@@ -22,6 +34,9 @@ VARIABLES phase,   \* "child" (building the child), "parent", "final"
           m,       \* mount prefix (<<>> = not mounted yet / no mount)
           mounted, pf, cf
 vars == <<phase, ct, cr, pt, pr, m, mounted, pf, cf>>
+NodeUnder(r, pre) == Len(r) >= Len(pre) /\ \A i \in DOMAIN pre : SameSeg(r[i], pre[i])
+Below(r, pre) == SubSeq(r, Len(pre) + 1, Len(r))
+Refused(r, pre) == NodeUnder(r, pre) /\ \E y \in cr : StaticClash(Below(r, pre), y)
 
 Init == /\ phase = (IF WithMount THEN "child" ELSE "parent") /\ ct = Root /\ cr = {} /\ pt = Root /\ pr = {}
         /\ m = <<>> /\ mounted = FALSE /\ pf = FALSE /\ cf = FALSE
@@ -39,12 +54,13 @@ CloseC(f) == /\ phase = "child" /\ cr # {}
 RegP(r) == /\ phase = "parent" /\ r \notin Full /\ Cardinality(pr) < MaxP
            \* no other application registers below the mount prefix (side condition of C04; merge_here would
            \* panic on a conflicting static child otherwise)
-           /\ (mounted => ~Under(m, [i \in DOMAIN r |-> IF r[i].k = "S" THEN r[i].s ELSE <<"a">>]))
+           /\ (mounted => IF OVERLAP THEN ~Refused(r, m) ELSE ~Under(m, [i \in DOMAIN r |-> IF r[i].k = "S" THEN r[i].s ELSE <<"a">>]))
            /\ pt' = Insert(pt, r, 1, <<"h", "p", r>>) /\ pr' = pr \cup {r}
            /\ UNCHANGED <<phase, ct, cr, m, mounted, pf, cf>>
 Mount(pre) == /\ phase = "parent" /\ WithMount /\ ~mounted
-              /\ \A r \in pr : ~Under(pre, [i \in DOMAIN r |-> IF r[i].k = "S" THEN r[i].s ELSE <<"a">>])
-              /\ \A r \in pr : ~(Len(r) =< Len(pre) /\ \A i \in DOMAIN r : r[i].k = "P" \/ pre[i].k = "P" \/ r[i] = pre[i])  \* nor a parent route on the way that a param would shadow
+              /\ IF OVERLAP THEN (\A r \in pr : ~Refused(r, pre)) /\ (\A y \in cr : pre \o y \notin pr)
+                 ELSE /\ \A r \in pr : ~Under(pre, [i \in DOMAIN r |-> IF r[i].k = "S" THEN r[i].s ELSE <<"a">>])
+                      /\ \A r \in pr : ~(Len(r) =< Len(pre) /\ \A i \in DOMAIN r : r[i].k = "P" \/ pre[i].k = "P" \/ r[i] = pre[i])  \* nor a parent route on the way that a param would shadow
               /\ m' = pre /\ mounted' = TRUE /\ pt' = MergeAt(pt, pre, 1, ct)
               /\ UNCHANGED <<phase, ct, cr, pr, pf, cf>>
 Close(f) == /\ phase = "parent" /\ (WithMount => mounted) /\ (pr # {} \/ mounted)
